@@ -275,6 +275,12 @@ func (tp *ethTxPool) CheckAndAdd(tx *etypes.Transaction, rawTx types.Tx) error {
 		return fmt.Errorf("nonce(%d) different with getNonce(%d)", tx.Nonce(), currentNonce)
 	}
 
+	if p := tp.pending[from]; p != nil && p.Get(tx.Nonce()) != nil {
+		// same answer as for a nonce that is occupied in the waiting queue: a second tx for it could
+		// never be promoted and would stay in the lookup map for good
+		return errors.New("tx nonce already exist in cache")
+	}
+
 	if err := tp.addWaiting(tx, from); err != nil {
 		return err
 	}
@@ -400,6 +406,9 @@ func (tp *ethTxPool) promoteExecutables(addrs []common.Address) {
 			// pending is not full, add
 			if err := tp.pending[addr].Add(tx); err == nil {
 				pendingTxCount++
+			} else {
+				// it left the waiting queue and did not enter pending: forget it
+				delete(tp.all, tx.Hash())
 			}
 		}
 	}
